@@ -827,6 +827,35 @@ class GenJumps(Gen):
         self.subs.append((lab, body))
         return [self.trace("gosub " + lab), {"k": "gosub", "label": lab}, self.trace("back from " + lab)]
 
+    def return_label_across(self):
+        """GOSUB from inside inner blocks, RETURN label to the body of an enclosing loop (or to a deeper place)."""
+        r = self.rng
+        sub = self.new_label("Sub")
+        ret = self.new_label("Ret")
+        sb = [self.trace("in " + sub)]
+        if r.random() < 0.4:
+            # the routine returns from inside one of its own loops
+            sb.append({"k": "for", "var": "RQ%", "lo": ("lit", "%", 1), "hi": ("lit", "%", 3), "step": None, "next_var": False,
+                       "body": [self.trace("routine loop"), {"k": "return", "label": ret}]})
+        else:
+            sb.append({"k": "return", "label": ret})
+        self.subs.append((sub, sb))
+        call = [self.trace("gosub " + sub), {"k": "gosub", "label": sub}, self.trace("after gosub (must not run)")]
+        kind = r.randrange(4)
+        if kind == 0:
+            inner = [{"k": "for", "var": "RB%", "lo": ("lit", "%", 1), "hi": ("lit", "%", 2), "step": None, "next_var": r.random() < 0.5, "body": call}]
+        elif kind == 1:
+            inner = [{"k": "select", "subj": ("var", "RA%"), "cases": [([("range", ("lit", "%", 1), ("lit", "%", 9))], call)], "else": None}]
+        elif kind == 2:
+            inner = [{"k": "for", "var": "RB%", "lo": ("lit", "%", 1), "hi": ("lit", "%", 2), "step": ("lit", "%", 1), "next_var": True, "body": [
+                {"k": "select", "subj": ("lit", "%", 1), "cases": [([("val", ("lit", "%", 1))], call)], "else": None}]}]
+        else:
+            inner = call
+        landing = [{"k": "label", "name": ret}, {"k": "print", "items": [("e", ("lit", "$", "at " + ret)), (";",), ("e", ("var", "RA%"))]}]
+        return [{"k": "for", "var": "RA%", "lo": ("lit", "%", 1), "hi": ("lit", "%", 3), "step": None, "next_var": r.random() < 0.5,
+                 "body": [self.trace("outer")] + inner + landing},
+                {"k": "print", "items": [("e", ("lit", "$", "left")), (";",), ("e", ("var", "RA%"))]}]
+
     def simple_safe(self):
         r = self.rng
         return {"k": "assign", "lhs": ("var", r.choice(["B%", "C%"])), "rhs": ("bin", "+", ("var", "B%"), ("lit", "%", r.choice([1, 2, 3])))}
@@ -957,10 +986,22 @@ class GenJumps(Gen):
                 self.handler_repairs = True
             if r.random() < 0.4:
                 body.append({"k": "assign", "lhs": ("var", "C%"), "rhs": ("bin", "+", ("var", "C%"), ("lit", "%", 100))})
-            if mode == "retry":
-                body.append({"k": "resume", "mode": "bare"})
-            elif mode == "next":
-                body.append({"k": "resume", "mode": "next"})
+            if r.random() < 0.06:
+                # an error raised by the handler itself (before its RESUME) is fatal: NOZ% is never assigned
+                body += [self.trace("handler fails"), {"k": "assign", "lhs": ("var", "A%"), "rhs": ("bin", "/", ("lit", "%", 10), ("var", "NOZ%"))}, self.trace("after the failure in the handler (must not run)")]
+            if mode in ("retry", "next"):
+                res = {"k": "resume", "mode": "bare" if mode == "retry" else "next"}
+                y = r.random()
+                if y < 0.2:
+                    # RESUME written inside a block of the handler (SELECT CASE ERR ... RESUME is the usual idiom): it leaves the block
+                    body.append({"k": "select", "subj": ("call", "ERR", []), "cases": [([("range", ("lit", "%", 1), ("lit", "%", 255))], [self.trace("in handler select"), res])], "else": None})
+                elif y < 0.35:
+                    body.append({"k": "for", "var": "HQ%", "lo": ("lit", "%", 1), "hi": ("lit", "%", 3), "step": None, "body": [self.trace("in handler loop"), res], "next_var": False})
+                elif y < 0.45:
+                    body.append({"k": "for", "var": "HQ%", "lo": ("lit", "%", 1), "hi": ("lit", "%", 2), "step": None, "next_var": True, "body": [
+                        {"k": "select", "subj": ("lit", "%", 2), "cases": [([("val", ("lit", "%", 2))], [res])], "else": None}]})
+                else:
+                    body.append(res)
             else:
                 rl = self.new_label("Resume")
                 self.pending_main_labels.append(rl)
@@ -1002,7 +1043,7 @@ class GenJumps(Gen):
             elif x < 0.55:
                 main += self.nested_fault() if self.handler_active else self.counted_goto()
             elif x < 0.7:
-                main += self.gosub_call()
+                main += self.gosub_call() if r.random() < 0.8 else self.return_label_across()
             elif x < 0.85:
                 main += self.goto_out_of_loops()
             else:
